@@ -27,6 +27,10 @@ pub enum Fault {
     ErrDecrypt,
     WrongKey,
     KeyLen(u8),
+    /// the right key followed by n extra bytes (a different key of the wrong length)
+    RightKeyPlus(u8),
+    /// only the first n bytes of the right key
+    RightKeyPrefix(u8),
 }
 
 impl TableKms {
@@ -64,7 +68,15 @@ impl KmsProvider for TableKms {
         }
         for (h, d) in self.table.borrow().iter() {
             if h == encrypted_dek {
-                return Ok(d.clone());
+                return Ok(match self.fault {
+                    Fault::RightKeyPlus(n) => {
+                        let mut k = d.clone();
+                        k.extend(std::iter::repeat(0x17u8).take(n as usize));
+                        k
+                    }
+                    Fault::RightKeyPrefix(n) => d[..(n as usize).min(d.len())].to_vec(),
+                    _ => d.clone(),
+                });
             }
         }
         Err(KmsError::InvalidKey("unknown wrapped key".into()))
@@ -173,7 +185,7 @@ fn check_env(ctx: &mut Ctx, c: &EnvCase) -> Res {
         tamper(ctx, t, "extend", n)?;
     }
     // provider faults
-    for fault in [Fault::ErrDecrypt, Fault::WrongKey, Fault::KeyLen(0), Fault::KeyLen(16), Fault::KeyLen(31), Fault::KeyLen(33), Fault::KeyLen(64)] {
+    for fault in [Fault::ErrDecrypt, Fault::WrongKey, Fault::KeyLen(0), Fault::KeyLen(16), Fault::KeyLen(31), Fault::KeyLen(33), Fault::KeyLen(64), Fault::RightKeyPlus(1), Fault::RightKeyPlus(16), Fault::RightKeyPlus(32), Fault::RightKeyPrefix(31), Fault::RightKeyPrefix(16), Fault::RightKeyPrefix(0)] {
         ctx.eval();
         let fk = TableKms { wrapped_len: wl, table: RefCell::new(kms.table.borrow().clone()), fault, salt: 0 };
         match no_unwind(|| EnvelopeEncryption::decrypt_seed(&fk, &blob)) {
@@ -193,6 +205,76 @@ fn check_env(ctx: &mut Ctx, c: &EnvCase) -> Res {
     ctx.class(&format!("env:{}:{}", cls, if c.full { "full-enum" } else { "sampled" }));
     ctx.nontrivial(&(c.plain.0.len(), wl, c.full));
     Ok(())
+}
+
+/// sequences of decrypt calls on one thread over several blobs: state must not carry from one call to the next
+#[derive(Debug, Clone, Serialize, Deserialize)]
+pub struct SeqCase {
+    /// (plaintext length 32..=64, wrapped-key length) per blob
+    pub blobs: Vec<(u8, u16)>,
+    /// (blob index, variant): 0 intact, 1 truncated by k, 2 extended by k, 3 provider error, 4 wrong key, 5 one byte changed at k,
+    /// 6 right key + trailing bytes, 7 intact again
+    pub ops: Vec<(u8, u8, u16)>,
+}
+
+fn check_seq(ctx: &mut Ctx, c: &SeqCase) -> Res {
+    let mut made: Vec<(TableKms, Vec<u8>, Vec<u8>)> = vec![];
+    for (i, (pl, wl)) in c.blobs.iter().enumerate() {
+        let pl = (*pl).clamp(32, 64) as usize;
+        let wl = (*wl).clamp(16, 1024) as usize;
+        let plain: Vec<u8> = sha512(&[b"seq-plain", &[i as u8], &[pl as u8]])[..pl].to_vec();
+        let kms = TableKms::new(wl, Fault::None, 1000 + i as u64);
+        let blob = match no_unwind(|| EnvelopeEncryption::encrypt_seed(&kms, &plain)) {
+            Ok(Ok(b)) => b,
+            _ => return ctx.fail("encrypt-error", "encrypt_seed failed"),
+        };
+        made.push((kms, plain, blob));
+    }
+    if made.is_empty() {
+        return Ok(());
+    }
+    let mut failed_before = false;
+    for (n, (bi, variant, k)) in c.ops.iter().enumerate() {
+        ctx.eval();
+        let (kms, plain, blob) = &made[*bi as usize % made.len()];
+        let k = *k as usize;
+        let (cand, provider_fault, expect_ok): (Vec<u8>, Fault, bool) = match variant % 8 {
+            0 | 7 => (blob.clone(), Fault::None, true),
+            1 => (blob[..blob.len() - 1 - k % (blob.len() - 1)].to_vec(), Fault::None, false),
+            2 => {
+                let mut b = blob.clone();
+                b.extend(std::iter::repeat(0x33u8).take(1 + k % 40));
+                (b, Fault::None, false)
+            }
+            3 => (blob.clone(), Fault::ErrDecrypt, false),
+            4 => (blob.clone(), Fault::WrongKey, false),
+            5 => {
+                let mut b = blob.clone();
+                let p = k % b.len();
+                b[p] ^= 0x40;
+                (b, Fault::None, false)
+            }
+            _ => (blob.clone(), Fault::RightKeyPlus(1 + (k % 32) as u8), false),
+        };
+        let provider = TableKms { wrapped_len: kms.wrapped_len, table: RefCell::new(kms.table.borrow().clone()), fault: provider_fault, salt: 0 };
+        let r = no_unwind(|| EnvelopeEncryption::decrypt_seed(&provider, &cand));
+        let what = format!("call #{} (variant {}, blob {} of {} bytes, {} earlier failures in this sequence)", n, variant % 8, *bi as usize % made.len(), blob.len(), if failed_before { "with" } else { "no" });
+        match (r, expect_ok) {
+            (Ok(Ok(p)), true) if &p == plain => {}
+            (Ok(Ok(p)), true) => return ctx.fail("sequence|roundtrip-different-plaintext", format!("{}: got {}", what, hex(&p))),
+            (Ok(Err(e)), true) => return ctx.fail("sequence|intact-blob-rejected-after-other-calls", format!("{}: intact blob with the right provider was rejected: {:?}", what, e)),
+            (Ok(Ok(p)), false) => return ctx.fail("sequence|tamper-or-fault-accepted-after-other-calls", format!("{}: returned Ok({})", what, hex(&p))),
+            (Ok(Err(_)), false) => failed_before = true,
+            (Err(p), _) => return ctx.fail("sequence|panic", format!("{}: {}", what, p)),
+        }
+    }
+    ctx.class(&format!("env:sequence:blobs={}", made.len()));
+    ctx.nontrivial(&(c.blobs.clone(), c.ops.clone()));
+    Ok(())
+}
+
+fn seq_case() -> impl Strategy<Value = SeqCase> {
+    (proptest::collection::vec((32u8..=64, prop_oneof![16u16..=40, 16u16..=300]), 1..=3), proptest::collection::vec((0u8..3, 0u8..8, any::<u16>()), 2..=14)).prop_map(|(blobs, ops)| SeqCase { blobs, ops })
 }
 
 fn env_case(full: bool) -> impl Strategy<Value = EnvCase> {
@@ -215,6 +297,10 @@ pub fn run(ctx: &mut Ctx) -> Vec<Violation> {
         check_env(ctx, c)
     }));
     out.extend(run_prop(ctx, "sampled", t.pick(4_000, 40_000), 100, env_case(false), |ctx, c| check_env(ctx, c)));
+    out.extend(run_prop(ctx, "sequences", t.pick(40_000, 400_000), 400, seq_case(), |ctx, c| {
+        ctx.sample("sequences", 2, c);
+        check_seq(ctx, c)
+    }));
     if t == Tier::Thorough {
         // every wrapped length 16..=1024 x plaintext lengths {32,33,48,63,64}, full enumeration
         let pls = [32u8, 33, 48, 63, 64];
@@ -233,6 +319,7 @@ pub fn run(ctx: &mut Ctx) -> Vec<Violation> {
 pub fn replay(ctx: &mut Ctx, sub: &str, case: &Value) -> Res {
     match sub {
         "full-enum" | "sampled" => replay_case::<EnvCase, _>(ctx, case, |ctx, c| check_env(ctx, c)),
+        "sequences" => replay_case::<SeqCase, _>(ctx, case, |ctx, c| check_seq(ctx, c)),
         "grid" => replay_case::<GridCase, _>(ctx, case, |ctx, g| {
             let plain: Vec<u8> = (0..g.pl).map(|k| k.wrapping_mul(37).wrapping_add(g.salt)).collect();
             check_env(ctx, &EnvCase { plain: Hex(plain), wrapped_len: g.wl, full: true })
